@@ -173,7 +173,7 @@ def register(ctx, report, facts, config, rule="C17.REGISTER"):
                     n += 1
                     if bd.key != b.key and not (bd.key in reg_cone and not bd.raw.get("pub")):
                         report.ob(rule, "table-mutated/%s/%s" % (bd.qname, cf[-1][1]), False, "MetaTable.%s is changed by `%s` in %s" % (cf[-1][1], c.name, bd.qname), site=bd.loc(bb), config=config)
-    report.floor(rule, "mutating accesses to the three tables", n, 4, config=config)
+    report.floor(rule, "mutating accesses to the three tables", n, 3, config=config)   # at least: an index enters the map, an entry each is appended to the vtable table and to tys
 
 
 def _only_from(t, leaf):
@@ -373,6 +373,8 @@ def iters(ctx, report, facts, config, rule="C17.ITER"):
             calls = [x for x in evs if x[0] == "call"]
             tg = [x for x in calls if x[2].name == "get" and not x[2].local and Q.crate_fields(Q.table_access(ev, x[3][0])[0]) == [(adt, "tys")]]
             stores = [x for x in evs if x[0] == "store" and x[2] == cur]
+            slot_pos = cur     # the term that stands for the position of the slot looked at in this round
+            positional = _positional(ev, L, adt, cur, vt)
             # the slot is addressed either as self.tys.get(self.index) (None = end of table) or as self.tys[self.index]
             # behind a comparison of self.index with self.tys.len()
             conds = list(it.path.conds) + [c for e in rets for c in e.path.conds]
@@ -390,7 +392,12 @@ def iters(ctx, report, facts, config, rule="C17.ITER"):
                         in_range = True
                     elif op in ("Ge", "Eq"):
                         in_range = False
-            if len(tg) == 1 and Q.strip(ev, tg[0][3][1]) == cur:
+            if positional is not None and not tg:
+                # `for (i, &ty) in self.tys.iter().enumerate().skip(self.index)`: the slots from the cursor upward, by position
+                slot_pos, ty_term, vt_term = positional
+                slot = "None" if it.end == "done" else "Some"
+                is_ty = lambda t, ty_term=ty_term: Q.strip(ev, t) == ty_term
+            elif len(tg) == 1 and Q.strip(ev, tg[0][3][1]) == cur:
                 slot = it.path.variant(tg[0][4])
                 ty = ("field", ("variant", tg[0][4], "Some"), "0", "std::option::Option")
                 is_ty = lambda t, ty=ty: Q.strip(ev, t) == ty
@@ -416,7 +423,7 @@ def iters(ctx, report, facts, config, rule="C17.ITER"):
             if slot != "Some":
                 problems.append("the outcome of tys.get(index) is not examined")
                 continue
-            if len(stores) != 1 or not fold_like_sem(stores[0][3], cur):
+            if len(stores) != 1 or not fold_like_sem(stores[0][3], slot_pos):
                 problems.append("self.index is advanced %d time(s) for a visited slot (expected exactly once, by 1)" % len(stores))
             fetches = [x for x in calls if x[2].key == tfi.key]
             if len(fetches) != 1:
@@ -454,7 +461,11 @@ def iters(ctx, report, facts, config, rule="C17.ITER"):
                                 f_, i2, base = Q.table_access(ev, s_)
                                 if Q.crate_fields(f_) == [(adt, vt)] and i2:
                                     vts.append(Q.strip(ev, i2[0]))
-            if not vts or any(v != cur for v in vts):
+            if positional is not None and not tg and positional[2] is not None and not vts:
+                # zipped with the vtable table: the entry that travels with the guard is the one the zip pairs with this slot
+                if any(s_ == positional[2] or Q.strip(ev, s_) == positional[2] for x in evs if x[0] == "call" for a in x[3] for s_ in subterms(a)):
+                    vts = [slot_pos]
+            if not vts or any(v != slot_pos for v in vts):
                 problems.append("the vtable entry is not read at the same index as the type id")
             for e in rets:
                 if e.kind == "return" and not (e.ret[0] == "agg" and e.ret[2] == "std::option::Option::Some"):
@@ -480,6 +491,35 @@ def iters(ctx, report, facts, config, rule="C17.ITER"):
         report.ob(rule, "MetaTable::%s" % ctor, ok, "starts at index 0 over the table's own %s / tys and the given world" % vt if ok else "iterator constructor does not start at 0 over the table's own lists", site=cb.loc(), config=config)
 
 
+def _positional(ev, L, adt, cur, vt=None):
+    """(position term, type id term, vtable entry term or None) if the loop runs over `self.tys.iter().enumerate().skip(self.index)`
+    - the slots from the cursor upward, each with its position - possibly zipped with the vtable table, which has the same
+    length (C17.REGISTER appends to both or to neither)."""
+    if L.kind == "while" or L.source is None or L.stages or L.elem is None:
+        return None
+    s = Q.strip(ev, L.source)
+    if not (Q.is_call(ev, s, "skip") and len(s[2]) == 2 and Q.strip(ev, s[2][1]) == cur):
+        return None
+    e = Q.strip(ev, s[2][0])
+    if not (Q.is_call(ev, e, "enumerate") and len(e[2]) == 1):
+        return None
+
+    def is_table(t, name):
+        f_, i_, base = Q.table_access(ev, t)
+        return Q.crate_fields(f_) == [(adt, name)] and not i_ and base == ("param", 1)
+
+    inner = Q.strip(ev, e[2][0])
+    pos = ("field", L.elem, "0", "tuple")
+    item = ("field", L.elem, "1", "tuple")
+    if Q.is_call(ev, inner, "zip") and len(inner[2]) == 2 and vt is not None:
+        if is_table(inner[2][0], "tys") and is_table(inner[2][1], vt):
+            return pos, ("field", item, "0", "tuple"), ("field", item, "1", "tuple")
+        return None
+    if is_table(e[2][0], "tys") and not Q.leaves(ev, e[2][0])[1:]:
+        return pos, item, None
+    return None
+
+
 def fold_like_sem(t, base):
     """t is base + 1 (checked add)."""
     if isinstance(t, tuple) and t[0] == "field" and t[2] == "0" and isinstance(t[1], tuple) and t[1][0] == "bin":
@@ -487,6 +527,34 @@ def fold_like_sem(t, base):
     return isinstance(t, tuple) and t[0] == "bin" and t[1].startswith("Add") and ((t[2] == base and t[3] == ("int", 1)) or (t[3] == base and t[2] == ("int", 1)))
 
 
+
+
+EFFECT_NAMES = {"try_fetch_internal": "try_fetch_internal", "from_type_id": "from_type_id", "borrow": "borrow*", "borrow_mut": "borrow*",
+                "try_borrow": "try_borrow*", "try_borrow_mut": "try_borrow*", "map": "map", "filter_map": "filter_map", "<indirect>": "apply",
+                "call": "apply", "call_mut": "apply", "call_once": "apply", "from_raw_parts": "from_raw_parts", "from_raw_parts_mut": "from_raw_parts",
+                "unwrap": "unwrap", "expect": "expect", "panic": "panic", "panic_fmt": "panic"}
+
+
+def _effects(ctx, facts, b, opaque):
+    """Per outcome of the function (kind, returned variant): which of the operations that matter for a visited slot are met
+    on some way to it - lookups, borrows, guard mapping, vtable re-attachment, panics - with shared / exclusive names unified.
+    How the table is walked is left out."""
+    ev, ends = Q.sem(ctx, facts, b, opaque=opaque)
+    rows = {}
+    for e in ends:
+        names = set()
+        for x in W._deep(e.path.events):     # the way that was taken out of each loop
+            if x[0] == "call" and x[2].name in EFFECT_NAMES:
+                names.add(EFFECT_NAMES[x[2].name])
+        k = (e.kind, e.ret[2].rsplit("::", 1)[-1] if e.ret and e.ret[0] == "agg" else None)
+        rows.setdefault(k, set()).update(names)
+        for L in Q.all_loops([e]):            # and what a round that goes on to the next slot does
+            for it in L.iters:
+                if it.end == "continue":
+                    for x in W._deep(it.path.events):
+                        if x[0] == "call" and x[2].name in EFFECT_NAMES:
+                            rows.setdefault(("next-slot", None), set()).add(EFFECT_NAMES[x[2].name])
+    return sorted((k, tuple(sorted(v))) for k, v in rows.items())
 
 
 def sibling(ctx, report, facts, config, rule="C17.SIBLING"):
@@ -498,7 +566,15 @@ def sibling(ctx, report, facts, config, rule="C17.SIBLING"):
     b = facts.one(name="next", trait="std::iter::Iterator", self_head=A.METAITERMUT)
     opq = [tfi.key, A.RESID + "::from_type_id"]
     sa, sb = W._tabulation(facts, a, opq, ren), W._tabulation(facts, b, opq, ren)
-    report.ob(rule, "MetaIter::next~MetaIterMut::next", sa == sb, "equal tabulations modulo shared<->exclusive (%d ways)" % len(sa) if sa == sb else
+    same = sa == sb
+    how = "equal tabulations modulo shared<->exclusive (%d ways)" % len(sa)
+    if not same:
+        # the two may walk the table in different spellings (a cursor loop here, `enumerate().skip(cursor)` there), which
+        # C17.ITER decides for each of them separately; what is left to compare is what they do to a slot they visit
+        ka, kb = _effects(ctx, facts, a, opq), _effects(ctx, facts, b, opq)
+        same = ka == kb
+        how = "written differently; equal effects per outcome modulo shared<->exclusive: %s" % (ka,)
+    report.ob(rule, "MetaIter::next~MetaIterMut::next", same, how if same else
               "iterators diverge: only shared: %s; only exclusive: %s" % ([x[:300] for x in sa if x not in sb][:2], [x[:300] for x in sb if x not in sa][:2]), site=b.loc(), config=config)
     g, gm = facts.one(MT + "::get"), facts.one(MT + "::get_mut")
     sa, sb = W._tabulation(facts, g, [], ren), W._tabulation(facts, gm, [], ren)
